@@ -216,7 +216,10 @@ class C10(Check):
                     "Endpoint/Zone/ApiListener objects and the node's started components are not observed); 4..34 (64) events: restarts (start time set or 0), symmetric and one-sided "
                     "connects/disconnects, UpdateObjectAuthority directly, through Timer::VerifFireDue and (a third of the cases) as two "
                     "overlapping runs blocked on a random object's lock, forced notification requests (also inside the cold-start window), "
-                    "notification timer runs, due checks of random checkables, the same work on both members after link changes, clocks "
+                    "notification timer runs, due checks of random checkables, checks held IN FLIGHT (blocking check command) while links and "
+                    "authority change, then released and made due twice more, the local Endpoint state that is not `connected` (syncing, "
+                    "connecting, log positions, capabilities, version, last-message times) scrambled independently on each node, the same "
+                    "work on both members after link changes, clocks "
                     "stepping around the 30 s window; a block of pure Utility::SDBM comparisons. evaluations = per-object verdicts of authority runs + hash "
                     "comparisons; a case counts as non-trivial when both members were settled with each other and node A held some of the "
                     "run-once objects and not others (counted by the Lean driver)")
